@@ -43,13 +43,12 @@ type stdioClientTransport struct {
 	serverParams StdioServerParameters
 	timeout      time.Duration
 
-	process *exec.Cmd
-	stdin   io.WriteCloser
-	stdout  io.ReadCloser
-	stderr  io.ReadCloser
+	// proc is the started child process with its pipes and codecs. It is created on first use
+	// under startMu and never changes afterwards, so concurrent first operations start one
+	// process and every later reader sees a fully initialised value.
+	proc    atomic.Pointer[stdioProcess]
+	startMu sync.Mutex
 
-	encoder   *json.Encoder
-	decoder   *json.Decoder
 	requestID atomic.Int64
 
 	requestMutex    sync.Mutex
@@ -70,6 +69,20 @@ type stdioClientTransport struct {
 
 	// Client reference for accessing rootsProvider.
 	client *StdioClient
+}
+
+// stdioProcess is the child process of a stdio transport together with its pipes and JSON codecs.
+type stdioProcess struct {
+	cmd    *exec.Cmd
+	stdin  io.WriteCloser
+	stdout io.ReadCloser
+	stderr io.ReadCloser
+
+	encoder *json.Encoder
+	decoder *json.Decoder
+
+	// exited is closed by processWatcher once cmd.Wait has returned (Wait must be called only once).
+	exited chan struct{}
 }
 
 // stdioTransportOption defines options for stdio transport.
@@ -118,8 +131,16 @@ func (t *stdioClientTransport) start(ctx context.Context) error {
 
 // startProcess starts the MCP server process.
 func (t *stdioClientTransport) startProcess() error {
+	t.startMu.Lock()
+	defer t.startMu.Unlock()
+	_, err := t.startProcessLocked()
+	return err
+}
+
+// startProcessLocked starts the MCP server process and publishes it; the caller holds startMu.
+func (t *stdioClientTransport) startProcessLocked() (*stdioProcess, error) {
 	if t.closed.Load() {
-		return fmt.Errorf("transport is closed")
+		return nil, fmt.Errorf("transport is closed")
 	}
 
 	// Create command.
@@ -141,20 +162,20 @@ func (t *stdioClientTransport) startProcess() error {
 	// Create pipes.
 	stdin, err := cmd.StdinPipe()
 	if err != nil {
-		return fmt.Errorf("failed to create stdin pipe: %w", err)
+		return nil, fmt.Errorf("failed to create stdin pipe: %w", err)
 	}
 
 	stdout, err := cmd.StdoutPipe()
 	if err != nil {
 		stdin.Close()
-		return fmt.Errorf("failed to create stdout pipe: %w", err)
+		return nil, fmt.Errorf("failed to create stdout pipe: %w", err)
 	}
 
 	stderr, err := cmd.StderrPipe()
 	if err != nil {
 		stdin.Close()
 		stdout.Close()
-		return fmt.Errorf("failed to create stderr pipe: %w", err)
+		return nil, fmt.Errorf("failed to create stderr pipe: %w", err)
 	}
 
 	// Start the process.
@@ -162,28 +183,43 @@ func (t *stdioClientTransport) startProcess() error {
 		stdin.Close()
 		stdout.Close()
 		stderr.Close()
-		return fmt.Errorf("failed to start process: %w", err)
+		return nil, fmt.Errorf("failed to start process: %w", err)
 	}
 
-	// Store references.
-	t.process = cmd
-	t.stdin = stdin
-	t.stdout = stdout
-	t.stderr = stderr
-
-	// Create JSON encoder/decoder.
-	t.encoder = json.NewEncoder(stdin)
-	t.decoder = json.NewDecoder(stdout)
+	// Publish the process with its pipes and JSON encoder/decoder.
+	p := &stdioProcess{
+		cmd:     cmd,
+		stdin:   stdin,
+		stdout:  stdout,
+		stderr:  stderr,
+		encoder: json.NewEncoder(stdin),
+		decoder: json.NewDecoder(stdout),
+		exited:  make(chan struct{}),
+	}
+	t.proc.Store(p)
 
 	// Start background goroutines.
-	go t.readLoop()
-	go t.stderrLoop()
-	go t.processWatcher()
+	go t.readLoop(p)
+	go t.stderrLoop(p)
+	go t.processWatcher(p)
 
 	t.logger.Infof("Started stdio process: %s %v (PID: %d)",
 		t.serverParams.Command, t.serverParams.Args, cmd.Process.Pid)
 
-	return nil
+	return p, nil
+}
+
+// ensureStarted returns the child process, starting it on first use. Concurrent callers start it once.
+func (t *stdioClientTransport) ensureStarted() (*stdioProcess, error) {
+	if p := t.proc.Load(); p != nil {
+		return p, nil
+	}
+	t.startMu.Lock()
+	defer t.startMu.Unlock()
+	if p := t.proc.Load(); p != nil {
+		return p, nil
+	}
+	return t.startProcessLocked()
 }
 
 // setRetryConfig sets the retry configuration for this transport
@@ -198,10 +234,9 @@ func (t *stdioClientTransport) sendRequest(ctx context.Context, req *JSONRPCRequ
 	}
 
 	// Start process if isn't started.
-	if t.process == nil {
-		if err := t.startProcess(); err != nil {
-			return nil, fmt.Errorf("failed to start process: %w", err)
-		}
+	p, err := t.ensureStarted()
+	if err != nil {
+		return nil, fmt.Errorf("failed to start process: %w", err)
 	}
 
 	// Generate request ID if not set.
@@ -232,7 +267,7 @@ func (t *stdioClientTransport) sendRequest(ctx context.Context, req *JSONRPCRequ
 
 	// Send request.
 	t.requestMutex.Lock()
-	err := t.encoder.Encode(req)
+	err = p.encoder.Encode(req)
 	t.requestMutex.Unlock()
 
 	if err != nil {
@@ -263,14 +298,13 @@ func (t *stdioClientTransport) sendNotification(ctx context.Context, notificatio
 	}
 
 	// Start process if not started.
-	if t.process == nil {
-		if err := t.startProcess(); err != nil {
-			return fmt.Errorf("failed to start process: %w", err)
-		}
+	p, err := t.ensureStarted()
+	if err != nil {
+		return fmt.Errorf("failed to start process: %w", err)
 	}
 
 	t.requestMutex.Lock()
-	err := t.encoder.Encode(notification)
+	err = p.encoder.Encode(notification)
 	t.requestMutex.Unlock()
 
 	if err != nil {
@@ -286,19 +320,24 @@ func (t *stdioClientTransport) sendResponse(ctx context.Context, resp *JSONRPCRe
 		return fmt.Errorf("transport is closed")
 	}
 
+	p := t.proc.Load()
+	if p == nil {
+		return fmt.Errorf("process is not started")
+	}
+
 	t.requestMutex.Lock()
-	err := t.encoder.Encode(resp)
+	err := p.encoder.Encode(resp)
 
 	// Force flush the stdin pipe to ensure immediate delivery.
-	if t.stdin != nil {
-		if flusher, ok := t.stdin.(interface{ Flush() error }); ok {
+	if p.stdin != nil {
+		if flusher, ok := p.stdin.(interface{ Flush() error }); ok {
 			if flushErr := flusher.Flush(); flushErr != nil {
 				t.logger.Warnf("Client sendResponse: Flush error: %v\n", flushErr)
 			}
 		}
 
 		// Try to sync if it's a file.
-		if file, ok := t.stdin.(*os.File); ok {
+		if file, ok := p.stdin.(*os.File); ok {
 			if syncErr := file.Sync(); syncErr != nil {
 				t.logger.Warnf("Client sendResponse: Sync error: %v\n", syncErr)
 			}
@@ -315,7 +354,7 @@ func (t *stdioClientTransport) sendResponse(ctx context.Context, resp *JSONRPCRe
 }
 
 // readLoop continuously reads messages from stdout.
-func (t *stdioClientTransport) readLoop() {
+func (t *stdioClientTransport) readLoop(p *stdioProcess) {
 	defer func() {
 		if r := recover(); r != nil {
 			t.logger.Errorf("readLoop panic: %v", r)
@@ -324,7 +363,7 @@ func (t *stdioClientTransport) readLoop() {
 
 	for !t.closed.Load() {
 		var rawMessage json.RawMessage
-		if err := t.decoder.Decode(&rawMessage); err != nil {
+		if err := p.decoder.Decode(&rawMessage); err != nil {
 			if err == io.EOF || t.closed.Load() {
 				break
 			}
@@ -547,9 +586,14 @@ func (t *stdioClientTransport) sendErrorResponse(request *JSONRPCRequest, code i
 		return
 	}
 
+	p := t.proc.Load()
+	if p == nil {
+		return
+	}
+
 	// stdin is shared with sendRequest/sendNotification/sendResponse: serialize the write.
 	t.requestMutex.Lock()
-	err = t.encoder.Encode(json.RawMessage(errorBytes))
+	err = p.encoder.Encode(json.RawMessage(errorBytes))
 	t.requestMutex.Unlock()
 	if err != nil {
 		t.logger.Errorf("Failed to send error response: %v", err)
@@ -557,12 +601,12 @@ func (t *stdioClientTransport) sendErrorResponse(request *JSONRPCRequest, code i
 }
 
 // stderrLoop reads and logs stderr output.
-func (t *stdioClientTransport) stderrLoop() {
-	if t.stderr == nil {
+func (t *stdioClientTransport) stderrLoop(p *stdioProcess) {
+	if p.stderr == nil {
 		return
 	}
 
-	scanner := bufio.NewScanner(t.stderr)
+	scanner := bufio.NewScanner(p.stderr)
 	// Keep draining stderr even if the child prints a very long line (default limit: 64 KiB).
 	scanner.Buffer(make([]byte, 0, 64*1024), maxStreamLineSize)
 	for scanner.Scan() && !t.closed.Load() {
@@ -574,12 +618,9 @@ func (t *stdioClientTransport) stderrLoop() {
 }
 
 // processWatcher monitors the process and handles unexpected exits.
-func (t *stdioClientTransport) processWatcher() {
-	if t.process == nil {
-		return
-	}
-
-	err := t.process.Wait()
+func (t *stdioClientTransport) processWatcher(p *stdioProcess) {
+	err := p.cmd.Wait()
+	close(p.exited)
 	if !t.closed.Load() {
 		if err != nil {
 			t.logger.Debugf("Process exited with error: %v", err)
@@ -616,45 +657,48 @@ func (t *stdioClientTransport) close() error {
 	// Cancel context first.
 	t.cancel()
 
+	// The process, if one was started. Taking startMu waits for a start that is in progress, so
+	// its pipes and process are closed too instead of being leaked.
+	t.startMu.Lock()
+	p := t.proc.Load()
+	t.startMu.Unlock()
+	if p == nil {
+		p = &stdioProcess{}
+	}
+
 	// Close pipes
-	if t.stdin != nil {
-		if err := t.stdin.Close(); err != nil {
+	if p.stdin != nil {
+		if err := p.stdin.Close(); err != nil {
 			errs = append(errs, fmt.Errorf("failed to close stdin: %w", err))
 		}
 	}
 
-	if t.stdout != nil {
-		if err := t.stdout.Close(); err != nil {
+	if p.stdout != nil {
+		if err := p.stdout.Close(); err != nil {
 			errs = append(errs, fmt.Errorf("failed to close stdout: %w", err))
 		}
 	}
 
-	if t.stderr != nil {
-		if err := t.stderr.Close(); err != nil {
+	if p.stderr != nil {
+		if err := p.stderr.Close(); err != nil {
 			errs = append(errs, fmt.Errorf("failed to close stderr: %w", err))
 		}
 	}
 
 	// Terminate process gracefully.
-	if t.process != nil && t.process.Process != nil {
+	if p.cmd != nil && p.cmd.Process != nil {
 		// First try SIGTERM
-		if err := t.process.Process.Signal(os.Interrupt); err != nil {
+		if err := p.cmd.Process.Signal(os.Interrupt); err != nil {
 			t.logger.Debugf("Failed to send SIGTERM: %v", err)
 		}
 
-		// Wait a bit for graceful shutdown.
-		done := make(chan struct{})
-		go func() {
-			t.process.Wait()
-			close(done)
-		}()
-
+		// Wait a bit for graceful shutdown (processWatcher reaps the process).
 		select {
-		case <-done:
+		case <-p.exited:
 			t.logger.Debugf("Process terminated gracefully")
 		case <-time.After(5 * time.Second):
 			// Force kill.
-			if err := t.process.Process.Kill(); err != nil {
+			if err := p.cmd.Process.Kill(); err != nil {
 				errs = append(errs, fmt.Errorf("failed to kill process: %w", err))
 			} else {
 				t.logger.Debugf("Process force-killed")
@@ -694,8 +738,8 @@ func (t *stdioClientTransport) terminateSession(ctx context.Context) error {
 
 // getProcessID returns the process ID.
 func (t *stdioClientTransport) getProcessID() int {
-	if t.process != nil && t.process.Process != nil {
-		return t.process.Process.Pid
+	if p := t.proc.Load(); p != nil && p.cmd.Process != nil {
+		return p.cmd.Process.Pid
 	}
 	return 0
 }
@@ -709,10 +753,11 @@ func (t *stdioClientTransport) getCommandLine() []string {
 
 // isProcessRunning checks if the process is running.
 func (t *stdioClientTransport) isProcessRunning() bool {
-	if t.process == nil || t.process.Process == nil {
+	p := t.proc.Load()
+	if p == nil || p.cmd.Process == nil {
 		return false
 	}
 
 	// On Unix systems, sending signal 0 checks if process exists.
-	return t.process.Process.Signal(syscall.Signal(0)) == nil
+	return p.cmd.Process.Signal(syscall.Signal(0)) == nil
 }
